@@ -412,7 +412,7 @@ def eig(data, meta=None, sizes=(1, 1), **kwargs):
             except (scipy.linalg.LinAlgError, np.linalg.LinAlgError) as e:
                 raise ValueError("Biorthonormalization of left/right eigenvector pairs failed.") from e
 
-        if any( np.abs(np.sum(_V.T * _U, axis=0) - 1) > tol ):
+        if any( np.abs(np.sum(_V.T * _U, axis=0) - 1) > 1e-10 ):  # (rounding errors are amplified by 1 / |v_j^H u_j|)
             raise ValueError("Biorthonormalization of left/right eigenvector pairs failed.")
         # pairs belonging to a degenerate eigenvalue are not made biorthogonal by a diagonal rescaling
         if np.any(np.abs(_V @ _U - np.eye(len(S))) > 1e-8):
